@@ -371,6 +371,10 @@ class TorchDistributedCommunicator:
 
     def group_ranks(self, group: dist.ProcessGroup | None) -> frozenset[int]:
         """Get frozenset of ranks in group."""
+        if group is not None and dist.is_initialized():
+            # Groups with the same number of ranks are still different
+            # groups so key on the global ranks of the group members
+            return frozenset(dist.get_process_group_ranks(group))
         return frozenset(range(get_world_size(group)))
 
     def flush_allreduce_buckets(self) -> None:
